@@ -33,17 +33,153 @@ func runC10(c *Ctx) {
 	c.execGateRule("R10.3")
 	c.commaOkRule("R10.4")
 	c.sizeRule("R10.5")
+	c.rule("R10.6", "no library mutex stays locked on any return path (a leaked lock wedges the connection for all later frames)")
+	c.lockLeakRule("R10.6")
 }
 
 // ---- R10.1
+// decodedSliceOrigin classifies the slice operand of an index expression.
+// ok=false: not peer-sized (not checked). baseMin: length guaranteed by the
+// producer (a helper's return paths), name: for reports.
+func (c *Ctx) decodedSliceOrigin(fn *ssa.Function, slice ssa.Value, at ssa.Instruction, dec map[*ssa.Alloc]ssa.CallInstruction) (name string, baseMin int64, ok bool) {
+	switch x := slice.(type) {
+	case *ssa.UnOp:
+		if x.Op != token.MUL {
+			return "", 0, false
+		}
+		if al, isAl := x.X.(*ssa.Alloc); isAl {
+			if _, isDec := dec[al]; isDec {
+				return al.Comment, 0, true
+			}
+			// single-assignment local holding a helper's result
+			var st *ssa.Store
+			n := 0
+			for _, ref := range *al.Referrers() {
+				if s, isSt := ref.(*ssa.Store); isSt && s.Addr == al {
+					st, n = s, n+1
+				}
+			}
+			if n == 1 {
+				return c.decodedSliceOrigin(fn, st.Val, at, dec)
+			}
+		}
+	case *ssa.Extract:
+		call, isCall := x.Tuple.(*ssa.Call)
+		if !isCall {
+			return "", 0, false
+		}
+		g := staticCallee(call)
+		if g == nil || !c.P.allFns[g] {
+			return "", 0, false
+		}
+		gdec := decodedAllocs(g)
+		if len(gdec) == 0 {
+			return "", 0, false
+		}
+		tainted := false
+		hasNil := false
+		min := int64(1 << 40)
+		allInstrs(g, func(in ssa.Instruction) {
+			rt, isRt := in.(*ssa.Return)
+			if !isRt || x.Index >= len(rt.Results) {
+				return
+			}
+			rv := rt.Results[x.Index]
+			if isNilConst(rv) {
+				hasNil = true
+				return
+			}
+			if ld, isLd := rv.(*ssa.UnOp); isLd && ld.Op == token.MUL {
+				if al, isAl := ld.X.(*ssa.Alloc); isAl {
+					if _, isDec := gdec[al]; isDec {
+						tainted = true
+						m, _ := lenFactsBound(cmpFactsAt(rt.Block()), rv)
+						if m < min {
+							min = m
+						}
+						return
+					}
+				}
+			}
+			min = 0
+		})
+		if !tainted {
+			return "", 0, false
+		}
+		if hasNil {
+			// the nil returns only stay out of reach when the caller tests a companion result of the same call
+			guarded := false
+			for _, cf := range expandConds(impliedConds(at.Block())) {
+				if dependsOnCall(cf.Cond, call, 4) {
+					guarded = true
+				}
+			}
+			if !guarded {
+				min = 0
+			}
+		}
+		return "returned by " + fname(g), min, true
+	case *ssa.Parameter:
+		// tainted when some static caller passes a decoded slice; producer-side facts are the callers'
+		idx := -1
+		for i, q := range fn.Params {
+			if q == x {
+				idx = i
+			}
+		}
+		min := int64(1 << 40)
+		tainted := false
+		for _, s := range c.P.callers[fn] {
+			if idx < 0 || idx >= len(s.Common().Args) {
+				continue
+			}
+			cfn := s.Parent()
+			arg := s.Common().Args[idx]
+			if _, _, isT := c.decodedSliceOrigin(cfn, arg, s, decodedAllocs(cfn)); isT {
+				tainted = true
+				m, _ := lenFactsBound(cmpFactsAt(s.Block()), arg)
+				if m < min {
+					min = m
+				}
+			}
+		}
+		if tainted {
+			return "parameter " + x.Name(), min, true
+		}
+	}
+	return "", 0, false
+}
+
+// dependsOnCall: is v computed (shallowly) from a result of call?
+func dependsOnCall(v ssa.Value, call *ssa.Call, depth int) bool {
+	if depth < 0 || v == nil {
+		return false
+	}
+	switch x := v.(type) {
+	case *ssa.Extract:
+		return x.Tuple == ssa.Value(call)
+	case *ssa.BinOp:
+		return dependsOnCall(x.X, call, depth-1) || dependsOnCall(x.Y, call, depth-1)
+	case *ssa.UnOp:
+		if x.Op == token.MUL {
+			if al, ok := x.X.(*ssa.Alloc); ok {
+				for _, ref := range *al.Referrers() {
+					if st, ok := ref.(*ssa.Store); ok && st.Addr == al && dependsOnCall(st.Val, call, depth-1) {
+						return true
+					}
+				}
+			}
+			return false
+		}
+		return dependsOnCall(x.X, call, depth-1)
+	}
+	return false
+}
+
 func (c *Ctx) idxRule(rule string) {
 	p := c.P
 	for _, fn := range p.Funcs {
 		dec := decodedAllocs(fn)
-		// closures can see the parent's decoded locals too, but this code base does not do that
-		if len(dec) == 0 {
-			continue
-		}
 		allInstrs(fn, func(in ssa.Instruction) {
 			var slice, idx ssa.Value
 			switch x := in.(type) {
@@ -57,19 +193,12 @@ func (c *Ctx) idxRule(rule string) {
 			if _, ok := slice.Type().Underlying().(*types.Slice); !ok {
 				return
 			}
-			ld, ok := slice.(*ssa.UnOp)
-			if !ok || ld.Op != token.MUL {
-				return
-			}
-			al, ok := ld.X.(*ssa.Alloc)
+			name, baseMin, ok := c.decodedSliceOrigin(fn, slice, in, dec)
 			if !ok {
 				return
 			}
-			if _, isDec := dec[al]; !isDec {
-				return
-			}
-			construct := fmt.Sprintf("%s: index %s of decoded slice %s", fname(fn), idxString(idx), al.Comment)
-			safe, why := indexSafe(in, slice, idx)
+			construct := fmt.Sprintf("%s: index %s of decoded slice %s", fname(fn), idxString(idx), name)
+			safe, why := indexSafe(in, slice, idx, baseMin)
 			c.check(safe, rule, construct, c.ipos(in), why, why+" (a peer-chosen params array can make this index out of range and crash the process)")
 		})
 	}
@@ -739,7 +868,10 @@ func (c *Ctx) sizeRule(rule string) {
 				}
 			}
 			_, cm, _ := fieldPlusConst(mSide)
-			_ = nSide
+			if !countFromLimitedRead(nSide, call) {
+				c.bad(rule, construct, c.ipos(cmp), "the value compared with the maximum is not the number of bytes read through the limit (e.g. a length taken after trimming): padded oversize bodies pass")
+				return
+			}
 			// which branch rejects? the one that reaches an error reply and returns without decoding
 			var iff *ssa.If
 			for _, ref := range *cmp.Referrers() {
@@ -812,6 +944,37 @@ func (c *Ctx) sizeRule(rule string) {
 	if !found {
 		c.bad(rule, "HTTP body reader: size limit", "-", "the HTTP request body is not read through io.LimitReader any more: no maximum request size is enforced")
 	}
+}
+
+// countFromLimitedRead: n is the byte count of the read that consumed the LimitReader
+// `lim`: result #0 of a call taking the limited reader (ReadFrom/Copy), or len() of
+// the slice such a call returned (ReadAll).
+func countFromLimitedRead(n ssa.Value, lim *ssa.Call) bool {
+	n = stripConvInt(n)
+	takesLim := func(call *ssa.Call) bool {
+		for _, a := range call.Common().Args {
+			if stripConv(a) == ssa.Value(lim) {
+				return true
+			}
+		}
+		return false
+	}
+	switch x := n.(type) {
+	case *ssa.Extract:
+		if call, ok := x.Tuple.(*ssa.Call); ok && x.Index == 0 {
+			return takesLim(call)
+		}
+	case *ssa.Call:
+		if s, ok := lenOf(x); ok {
+			if ex, ok := s.(*ssa.Extract); ok {
+				if call, ok := ex.Tuple.(*ssa.Call); ok {
+					return takesLim(call)
+				}
+			}
+		}
+		return takesLim(x)
+	}
+	return false
 }
 
 // isErrFnCall: a call of a value of the error-reply function type.
